@@ -1,0 +1,22 @@
+//go:build verif
+
+// Contracts for the deductive verifier in /verif (comment-only: adds no declarations).
+package authutil
+
+//@ import "gopkg.in/ldap.v2"
+//@ use errors strings logging time
+
+// ---- C07: what the directory said about a password -----------------------------------------------------------
+// The bind is made as the user with the submitted password; the verdict is "accepted" only after a successful
+// bind, and a bind the server refused with "Invalid Credentials" is an answer (false, nil) - not an outage, which
+// would let the offline cache decide.
+//@ ghost var ghostBindErr error
+//@ ghost var ghostBindDone bool
+//@ func CheckLDAPUserPassword
+//@   handler CheckLDAPUserPassword
+//@   atcall (*gopkg.in/ldap.v2.Conn).Bind requires (c *ldap.Conn, dn string, pw string) :: dn == bindDN && pw == bindPassword   #C07.binds-as-the-user-with-the-submitted-password @C07
+//@   atcall (*gopkg.in/ldap.v2.Conn).Bind sets ghostBindErr error (c *ldap.Conn, dn string, pw string, err2 error) :: err2
+//@   atcall (*gopkg.in/ldap.v2.Conn).Bind sets ghostBindDone bool (c *ldap.Conn, dn string, pw string, err2 error) :: true
+//@   ensures ret0 ==> ret1 == nil && ghostBindDone && ghostBindErr == nil   #C07.accepted-only-after-a-successful-bind @C07
+//@   ensures ghostBindDone && ghostBindErr != nil && strContains(errText(ghostBindErr), "Invalid Credentials") ==> !ret0 && ret1 == nil   #C07.refused-bind-is-an-answer @C07
+//@   ensures ghostBindDone && ghostBindErr != nil && !strContains(errText(ghostBindErr), "Invalid Credentials") ==> ret1 != nil   #C07.other-bind-failures-are-outages @C07
